@@ -154,6 +154,6 @@ def serialize_date(date):
         return 0
     date = epoch_seconds(date) * 1000
     d1900 = epoch_seconds(date_1900) * 1000
-    if date <= -2203891200000:
+    if date < -2203891200000:
         return (date - d1900) / 86400000 + 1
     return (date - d1900) / 86400000 + 2
